@@ -19,12 +19,12 @@ Entries == <<
   DCall("for_d", P(<<"u", "Two">>), <<"::d::U1", "::d::U3">>, FALSE), DCall("for_a", P(<<"Foo">>), <<"#[f]">>, FALSE),
   DCall("all_d", P(<<"x">>), <<"::d::G">>, FALSE) >>
 SubPool == <<Rule(TPath(FALSE, <<"u", "Three">>, <<>>), Ext("Y", <<>>)), Rule(TPath(FALSE, <<"a", "Foo">>, <<>>), Ext("Z", <<>>)),
-             Rule(TPath(FALSE, <<"m", "Foo1">>, <<Id("T")>>), Ext("W", <<Id("T")>>)), Rule(TPath(FALSE, <<"Option">>, <<>>), Ext("Opt", <<>>))>>
+             Rule(TPath(FALSE, <<"m", "Foo1">>, <<Id("T")>>), Ext("W", <<Id("T")>>)), Rule(TPath(FALSE, <<"Option">>, <<>>), Ext("Opt", <<>>)), Rule(TPath(FALSE, <<"Knwon">>, <<>>), Ext("Typo", <<>>))>>
 Queries == <<P(<<"x", "Foo">>), P(<<"Foo">>), P(<<"a", "Bar">>), P(<<"q", "Baz">>), P(<<"Option">>), P(<<"m", "Foo1">>)>>
 
 Selections == {<<>>} \cup {<<i>> : i \in DOMAIN Entries} \cup {<<i, j>> : i \in DOMAIN Entries, j \in DOMAIN Entries}
               \cup {<<i, j, k>> : i \in {3, 4, 5}, j \in DOMAIN Entries, k \in {6, 7, 1}}
-SubSelections == {<<>>, <<1>>, <<2>>, <<1, 3>>, <<4, 1>>}
+SubSelections == {<<>>, <<1>>, <<2>>, <<1, 3>>, <<4, 1>>, <<5>>, <<5, 2, 1>>}
 
 VARIABLES reg, S, todo, vst
 vars == <<reg, S, todo, vst>>
